@@ -721,6 +721,51 @@ def axis_parts(res, tier, okx):
     return {"cases": len(model), "operators": dict(kinds)}
 
 
+def tconv_paddings(res, tier, okx):
+    """translation validation of the padding Vela gives a TRANSPOSE_CONV (fixup_conv2d_backprop + add_padding_fields, run on
+    operators that Vela's reader built) against props/C01.v transposed_convolution_as_convolution: zeros in front =
+    kernel - 1 - the reference's leading padding, enough zeros behind, on both axes (model/Rewrites.v tconv_pad_ok)"""
+    import tempfile
+    n = 150 if tier == "quick" else 3000
+    rng = random.Random("c01tconv/%d" % vlib.seed())
+    cases = [[rng.randrange(1, 9), rng.randrange(1, 9), rng.choice([1, 2, 4]), rng.choice([2, 4]), rng.randrange(1, 6), rng.randrange(1, 6),
+              rng.choice([1, 2, 2]), rng.randrange(2)] for _ in range(n)]
+    tmp = tempfile.mkdtemp(prefix="c01tconv_", dir=vlib.BUILD)
+    cj, oj = os.path.join(tmp, "cases.json"), os.path.join(tmp, "out.json")
+    json.dump(cases, open(cj, "w"))
+    p = subprocess.run([vlib.PY, os.path.join(vlib.ROOT, "tools", "rewrite_worker.py"), cj, oj, "tconv"], env=vlib.py_env({"VERIF_TMP": tmp}),
+                       capture_output=True, text=True, timeout=3000)
+    if p.returncode != 0 or not os.path.exists(oj):
+        res.violation({"machinery": "rewrite worker (tconv)"}, {"stderr": p.stderr[-1500:]},
+                      "C01: add_padding_fields could not be run on generated TRANSPOSE_CONV operators", no_input=True)
+        return {"cases": 0}
+    impl = json.load(open(oj))
+    shutil.rmtree(tmp, ignore_errors=True)
+    rows = []
+    for c, o in zip(cases, impl):
+        rows.append([c[0], c[4], c[6], o["ofm"][1], o["pad"][0], o["pad"][2]])      # height axis
+        rows.append([c[1], c[5], c[6], o["ofm"][2], o["pad"][1], o["pad"][3]])      # width axis
+    model = models.run("tconv_pad", rows) if okx else []
+    bad = 0
+    stats = collections.Counter()
+    for idx, (c, o) in enumerate(zip(cases, impl)):
+        if not model:
+            break
+        mh, mw = model[2 * idx], model[2 * idx + 1]
+        stats["stride %d %s" % (c[6], "SAME" if c[7] else "VALID")] += 1
+        mode_ok = ("TRANSPOSE" in o["resampling"]) == (c[6] > 1) and o["stride"] == [1, 1]
+        if (mh[0] != 1 or mw[0] != 1 or not mode_ok) and bad < 5:
+            bad += 1
+            res.violation({"kind": "tconv_padding", "case": c},
+                          {"case [h, w, c, oc, kh, kw, stride, SAME]": c, "implementation": o,
+                           "model height axis [ok, reference leading padding]": mh, "model width axis": mw},
+                          "C01: TRANSPOSE_CONV %dx%d -> %dx%d, kernel %dx%d, stride %d, %s: the padding (top, left, bottom, right) = %s Vela gives the "
+                          "convolution over the zero-inserted input is not the one under which it is proved to be the transposed convolution "
+                          "(props/C01.v transposed_convolution_as_convolution / tconv_pad_ok_sound)" % (
+                              c[0], c[1], o["ofm"][1], o["ofm"][2], c[4], c[5], c[6], "SAME" if c[7] else "VALID", o["pad"]))
+    return {"cases": len(cases), "kinds": dict(stats)}
+
+
 def run(tier):
     res = vlib.Result("C01", tier, "other")
     b = vlib.build_property("C01")
@@ -734,6 +779,7 @@ def run(tier):
     rw_cov["stride_folds"] = stride_folds(res, tier, okm and b["ok"])
     rw_cov["prelu_kinds"] = prelu_kinds(res, tier, okm and b["ok"])
     rw_cov["axis_parts"] = axis_parts(res, tier, okm and b["ok"])
+    rw_cov["tconv_paddings"] = tconv_paddings(res, tier, okm and b["ok"])
     n = 470 if tier == "quick" else 3400
     max_macs = 1200000 if tier == "quick" else 30000000
     rng = random.Random("c01/%d" % vlib.seed())
